@@ -1,6 +1,7 @@
 (* Property C05 — parsing is invariant under keyword case, whitespace and line layout. *)
 From Coq Require Import String Ascii List ZArith NArith Bool.
 From SDP Require Import Base PyStr Regex Lexer Actions Parse Pre Engine Seq SeqProofs LexProofs PreProofs.
+From SDP Require Entity Table TableProofs Alter AlterProofs AlterKeyProofs KeywordCaseProofs.
 From SDP.Gen Require RegexAst.
 Import ListNotations.
 Open Scope string_scope.
@@ -42,3 +43,18 @@ Theorem C05_sequence_keyword_case : forall a norm silent, wf a = true ->
   parse_lexemes norm silent (lexemes a) = Ok (Some (denote norm a)).
 Proof. exact seq_parse. Qed.
 Print Assumptions C05_sequence_keyword_case.
+
+(* ---------- keyword case, end to end for the CREATE TABLE and ALTER TABLE fragments ---------------------------------------------------
+   Two statements that are the same up to the spelling of their keywords (any letter case; [c_table] / [c_alter] put every
+   keyword in one canonical spelling and leave names, type words, values and literals untouched) are parsed to the same entity,
+   silent or not.  For ALTER the MODIFY COLUMN / ALTER COLUMN / MODIFY forms of a column change are identified as well. *)
+Theorem C05_table_keyword_case : forall t t' norm silent silent',
+  Table.wf norm t = true -> Table.wf norm t' = true -> KeywordCaseProofs.c_table t = KeywordCaseProofs.c_table t' ->
+  parse_lexemes norm silent (Table.lexemes t) = parse_lexemes norm silent' (Table.lexemes t').
+Proof. exact KeywordCaseProofs.table_keyword_case. Qed.
+Print Assumptions C05_table_keyword_case.
+Theorem C05_alter_keyword_case : forall a a' norm silent silent',
+  Alter.wf norm a = true -> Alter.wf norm a' = true -> KeywordCaseProofs.c_alter a = KeywordCaseProofs.c_alter a' ->
+  parse_lexemes norm silent (Alter.lexemes a) = parse_lexemes norm silent' (Alter.lexemes a').
+Proof. exact KeywordCaseProofs.alter_keyword_case. Qed.
+Print Assumptions C05_alter_keyword_case.
